@@ -205,6 +205,15 @@ func (d *Directory) updateChildEntry(c child) error {
 	}
 	verifSched("Directory.updateChildEntry:localDone")
 
+	// A directory that was unlinked from its parent (removed, or moved: the
+	// new place holds a new Directory object) must not write itself back
+	// into that parent: a descriptor that is still open on a file below it
+	// would otherwise resurrect the old path when it is flushed or closed.
+	// Same rule as for an unlinked file in flushUp (see inode.unlinked).
+	if d.unlinked.Load() {
+		return nil
+	}
+
 	// Continue to propagate the update process upwards
 	// (all the way up to the root).
 	return d.parent.updateChildEntry(child{d.name, newDirNode})
